@@ -48,6 +48,11 @@ func C18_ParseShaped() {
 	checkParseError(shapedInput())
 }
 
+// C18_ParseStruct: the same on the element-structured inputs (SHAPE).
+func C18_ParseStruct() {
+	checkParseError(structInput())
+}
+
 // droppedInput is the canonical base part (arbitrary values) with ONE of the
 // mandatory elements left out (which one is arbitrary) and nothing after it:
 // it reaches the "missing base metric" (v3) and "vector cut short" (v2, v4)
@@ -74,4 +79,20 @@ func droppedInput() string {
 
 func C18_ParseDropped() {
 	checkParseError(droppedInput())
+}
+
+// C18_ParseMutated: the documented error on every single-byte edit of the
+// canonical base part (see C01_AcceptMutated).
+func C18_ParseMutated() {
+	base := baseInput()
+	b := verif.NondetBytes("mb", 1)
+	kind := verif.Param("MUT", 0)
+	lo := verif.Param("POS0", 0)
+	for p := lo; p < lo+mutChunkN(); p++ {
+		s, ok := mutated(base, b, kind, p)
+		if !ok {
+			continue
+		}
+		checkParseError(s)
+	}
 }
